@@ -355,6 +355,42 @@ def exc_site(exc):
     return type(exc).__name__, site
 
 
+# The functions of the pinned tree that raise NotImplementedError: the explicitly unimplemented hooks (coprocessor, barrier, hint, event, debug, cache
+# maintenance mocks of arm_v6.py, hub.set_bits) and the decoder rows of unimplemented extensions.  C18 accepts NotImplementedError as the documented
+# outcome of THOSE; the same exception raised from anywhere else is a host-level failure like any other (an 'else: raise NotImplementedError' added to
+# an opcode must not pass as "documented").  A hook that is merely renamed still qualifies: a function whose whole body is the raise is a mock.
+NIE_SITES = frozenset(('armv6/arm_v6.py:' + ' armv6/arm_v6.py:'.join('''bkpt_instr_debug_event coproc_done_loading coproc_done_storing coproc_get_one_word
+coproc_get_two_words coproc_get_word_to_store coproc_internal_operation coproc_send_loaded_word coproc_send_one_word coproc_send_two_words cp14_debug_instr_decode
+cp14_jazelle_instr_decode cp14_trace_instr_decode cp15_instr_decode cpx_instr_decode data_synchronization_barrier hint_preload_data hint_preload_data_for_write
+hint_yield instr_is_pl0_undefined instruction_synchronization_barrier remap_regs_have_reset_values send_event switch_to_jazelle_execution
+tlb_lookup_came_from_cache_maintenance'''.split())).split() + ['armv6/memory_controller_hub.py:set_bits', 'armv6/opcodes/abstract_opcodes/bxj.py:execute'])
+
+
+def nie_declared(exc):
+    """is this NotImplementedError one of the explicitly unimplemented features?"""
+    tb = exc.__traceback__
+    inner = None
+    while tb is not None:
+        if '/armulator/' in tb.tb_frame.f_code.co_filename:
+            inner = tb.tb_frame
+        tb = tb.tb_next
+    if inner is None:
+        return True                      # raised by the harness's own stubs
+    fn = inner.f_code.co_filename.split('/armulator/', 1)[1]
+    site = '%s:%s' % (fn, inner.f_code.co_name)
+    if site in NIE_SITES or (fn.startswith('armv6/opcodes/decoders/') and inner.f_code.co_name == 'decode_instruction'):
+        return True
+    try:
+        import ast
+        import inspect
+        import textwrap
+        body = ast.parse(textwrap.dedent(inspect.getsource(inner.f_code))).body[0].body
+        body = [n for n in body if not (isinstance(n, ast.Expr) and isinstance(getattr(n, 'value', None), ast.Constant))]
+        return len(body) == 1 and isinstance(body[0], ast.Raise)
+    except Exception:
+        return False
+
+
 def dump_devices(arm, template):
     """device specs holding the current bytes (sparse 32-byte chunks); kinds/ranges taken from 'template'"""
     out = []
